@@ -82,19 +82,23 @@ theorem C03_getters (s : Stk) (k : Nat) (hwf : s.WF) (hk : s.cfg.cap = (k : Int)
   rcases hwf.capOk with h | ⟨h1, h2, h3⟩
   · omega
   · rw [pow62] at h2
-    unfold Cap Avail isFull Gen.Cap Gen.Avail Gen.isFull rawLen
+    have hc := hwf.cap_isLen
+    have hl : s.cfg.cap ≠ 0 → IsRawLen s.rawLen := fun _ => hwf.rawLen_isRawLen
+    unfold Cap Avail isFull
+    rw [GenSem.Cap _ hc, GenSem.Avail _ _ hc hl, GenSem.isFull _ _ hc hl]
+    unfold rawLen
     rw [hk]
-    have hpos : (k : Int) + 1 > 0 := by omega
-    have hne : ¬ ((k : Int) + 1 = 0) := by omega
-    have e1 : wrap64 ((k : Int) + 1 + -1) = k := by rw [wrap64_eq] <;> omega
-    have e2 : wrap64 ((k : Int) + 1 - ((s.xs.length : Int) + 1)) = (k : Int) - s.xs.length := by rw [wrap64_eq] <;> omega
-    refine ⟨by simp [hpos, e1], by simp [hpos, e2], ?_⟩
-    simp [hne]; omega
+    have hpos : 0 < (k : Int) + 1 := by omega
+    simp only [hpos, ↓reduceIte, decide_eq_true_eq]
+    refine ⟨by omega, by omega, ?_⟩
+    omega
 
 /-- created without a capacity: `Cap() == -1`, `Avail() == -1`, never full -/
 theorem C03_getters_nocap (s : Stk) (h : s.cfg.cap = 0) : s.Cap = -1 ∧ s.Avail = -1 ∧ s.isFull = false := by
-  unfold Cap Avail isFull Gen.Cap Gen.Avail Gen.isFull
-  rw [h]
+  have hc : IsLen (0 : Int) := by rw [isLen_iff]; omega
+  have hl : (0 : Int) ≠ 0 → IsRawLen s.rawLen := fun c => absurd rfl c
+  unfold Cap Avail isFull
+  rw [h, GenSem.Cap _ hc, GenSem.Avail _ _ hc hl, GenSem.isFull _ _ hc hl]
   refine ⟨by simp, by simp, by simp⟩
 
 /-- non-vacuity: a capacity-2 stack holding 2 elements is well-formed and full -/
